@@ -12,7 +12,7 @@ from ..procs import pmap
 from ..tlc import account, run_tlc
 
 MODULE = 'vgen.helpers'
-SLUG = {'a': 'a', 'b': 'g:b', 'c': 'c', 'd': 'd'}
+SLUG = {'a': 'a', 'b': 'g:b', 'c': 'c', 'd': 'd', 'e': 'e'}
 
 
 def module():
@@ -25,17 +25,22 @@ def module():
         dict(slug='c', cls_name='HcTask', kind='json', inputs=[dict(ref='a', how='name'), dict(ref='g:b', how='class')],
              registry_pulls=['a', 'b']),
         dict(slug='d', cls_name='HdTask', kind='json', inputs=[dict(ref='a', how='param', default=None)]),
+        # an optional input declared in front of a required one (both InputTaskParameters)
+        dict(slug='e', cls_name='HeTask', kind='json', inputs=[dict(ref='a', how='param', default=None), dict(ref='g:b', how='param')],
+             pulls=['a', 'b'], input_kinds={}),
     ]
     mod = gen.make_module(specs, MODULE)
     return mod
 
 
-MOCKVAL = {'a': {'mocked': 'a', 'n': [1, 2]}, 'b': 0, 'c': None, 'd': [None]}   # falsy and None mock values included
+MOCKVAL = {'a': {'mocked': 'a', 'n': [1, 2]}, 'b': 0, 'c': None, 'd': [None], 'e': 'e-mock'}   # falsy and None mock values included
 
 
 def expected(v, given):
     if 'mock' in v:
         return MOCKVAL[v['mock']]
+    if 'absent' in v:
+        return None       # an optional input nobody provides: the task sees its default
     t = v['t']
     p = {}
     if t == 'a':
@@ -43,7 +48,7 @@ def expected(v, given):
     if t == 'b':
         p = {'y': 7 if 'y' in given else 5}
     ins = {}
-    names = {'b': ['a'], 'c': ['a', 'b'], 'd': []}.get(t, [])
+    names = {'b': ['a'], 'c': ['a', 'b'], 'd': [], 'e': ['a', 'b']}.get(t, [])
     for name, sub in zip(names, v['i']):
         ins[name] = expected(sub, given)
     return {'t': SLUG[t], 'p': p, 'i': ins}
@@ -55,7 +60,7 @@ def one(job):
 
     mod = module()
     rng = random.Random(seed + idx)
-    cls = {'a': mod.HaTask, 'b': mod.HbTask, 'c': mod.HcTask, 'd': mod.HdTask}
+    cls = {'a': mod.HaTask, 'b': mod.HbTask, 'c': mod.HcTask, 'd': mod.HdTask, 'e': mod.HeTask}
     root = scratch(f'c19-{os.getpid()}') / f't{idx}'
     bad = []
     real, mocks, given = case['real'], case['mocks'], case['given']
@@ -105,7 +110,7 @@ def one(job):
             gen.RUNLOG.clear()
             m0 = sorted(mocks)[0]
             try:
-                tc.force(SLUG[m0])
+                tc.force(SLUG[m0], recompute=bool(idx % 2))     # (odd cases: the chain recomputes the forced tasks itself)
                 for t in sorted(real):
                     want = expected(case['out']['values'][t], given)
                     got = tc[SLUG[t]].value
@@ -162,7 +167,7 @@ def param_values(_):
             self.chain_seen = False
 
         def init_chain(self, chain):
-            self.chain_seen = True
+            self.chain_seen = sorted(chain.tasks)       # what the object finds in the chain it is given
 
         def repr(self):
             return 'Aware()'
